@@ -25,11 +25,13 @@ def case(g, tier, ci):
     chans = r.sample([1, 2, 3, 4, "A", "B", "ch1", 7], r.randint(1, 6))
     ops = sg.element("e", SR, N, chans, raw_p=0.4, kinds=("ramp", "sine", "user"), flags_p=0.1, waits=0.2, nseg=(1, 4))
     k = r.random()
+    sr_dev = False
     if k < 0.55 and len(chans) >= 1:
         # one deviant channel, overwriting an existing one or added as a new channel
         ch = r.choice(chans) if r.random() < 0.6 else "dev"
         if r.random() < 0.5:
             SR2 = r.choice([SR * 2, SR * 1.5, SR + 1])
+            sr_dev = True
             N2 = N
         else:
             SR2 = SR
@@ -45,7 +47,7 @@ def case(g, tier, ci):
         ops.append({"op": "el.new", "id": "x"})
         ops.append({"op": "el.addArray", "id": "x", "ch": 1, "wfm": [q(dyadic(r)) for _ in range(N)], "SR": enc(SR),
                     "kw": [["m1", [0] * N], ["m2", [0] * (N + r.choice([-1, 1, 3]))]], "_errclass": True})
-    if r.random() < 0.35:
+    if r.random() < 0.35 and not sr_dev:      # (with one sample rate only: the new durations are whole samples, no ties)
         # a query first (it caches SR/duration), then an edit that may make the channels unequal, then everything again
         ops.append({"op": r.choice(["el.validate", "el.points", "el.duration", "el.SR"]), "id": "e"})
         bch = [o for o in ops if o["op"] == "el.addBP" and o["id"] == "e"]
